@@ -241,6 +241,22 @@ func cliCase(o *kit.Out, r *kit.Rand, idx int) {
 			mr = 1
 		}
 	}
+	if r.Chance(30) && f > 0 {
+		// both tolerances given: the count tolerance is respected, the share tolerance is not (or the reverse)
+		if r.Bool() {
+			mf = int(f + r.Range(0, 3))
+			mr = int(100*f/n) - int(r.Range(1, 5))
+			if mr < 1 {
+				mr = 1
+			}
+		} else if f > 1 {
+			mf = int(f - 1)
+			mr = int(100*f/n) + int(r.Range(1, 5))
+			if mr > 100 {
+				mr = 100
+			}
+		}
+	}
 	setupFails := r.Chance(10)
 
 	var started atomic.Int64
